@@ -223,6 +223,7 @@ def run(ctx: Ctx):
     # ---- O8 reader / writer path agreement -----------------------------------------
     _o9_o10(ctx, rel)
     _o8(ctx, rel)
+    _o11(ctx, rel)
     plumbing(ctx, "S0", g3=False, g4=False)
     return dict(
         explanation=(
@@ -254,8 +255,10 @@ def _collision_guard(hist_call: ast.Call, pm, rd: ReachingDefs, prov: Prov, path
     if not gs:
         return None
     test, pol = gs[-1]
-    if not pol or not isinstance(test, ast.Name):
+    if not pol:
         return None
+    if not isinstance(test, ast.Name):
+        return _classify_collision(test, test, rd, prov)  # the predicate written in the test itself
     defs = list(rd.defs_of(test))
     if len(defs) > 1 and path is not None:
         taken = {(d_.test, d_.taken) for d_ in path.decisions}
@@ -279,6 +282,10 @@ def _collision_guard(hist_call: ast.Call, pm, rd: ReachingDefs, prov: Prov, path
     v = d.value
     if v is None or isinstance(v, ast.Constant):
         return None
+    return _classify_collision(v, test, rd, prov)
+
+
+def _classify_collision(v: ast.AST, test: ast.AST, rd: ReachingDefs, prov: Prov):
     from sa.inline import Inliner
     inl_ = getattr(prov, "_inl", None)
     if inl_ is None:
@@ -673,6 +680,47 @@ def _o9_o10(ctx, rel):
            f"{min(r.lineno for r in late) if late else 0}): when a refusal fires (e.g. 'would overwrite best') nothing is written, yet "
            f"get_last_epoch() already counts the epoch, and the next recorded row skips it", rel, stores[0].lineno,
            sample=[r.lineno for r in late])
+
+
+def _o11(ctx, rel):
+    """O11: which epoch is 'best' decides which files are kept, and it must be the same answer before and after the history is
+    reloaded from the csv file - where every metric has been through the column's format string. get_best_epoch therefore orders
+    the epochs by the value AS STORED (`float(fmt.format(v))`): an ordering comparison with an operand that comes from the history
+    without passing through the format sees a different number than the reloaded controller will."""
+    col, pkg = ctx.col, ctx.pkg
+    f = pkg.func(f"{MOD}::{CLS}.get_best_epoch")
+    rd = ReachingDefs(f.node)
+    n_cmp, raw = 0, []
+    for n in own_nodes(f.node):
+        ops = []
+        if isinstance(n, ast.Compare) and all(isinstance(o, (ast.Lt, ast.LtE, ast.Gt, ast.GtE)) for o in n.ops):
+            ops = [n.left] + list(n.comparators)
+        elif isinstance(n, ast.Call) and call_name(n) in ("min", "max") and len(n.args) >= 2:
+            ops = list(n.args)
+        if not ops:
+            continue
+        hist = [o for o in ops if "cache_hist" in " ".join(u(x) for x in rd.derives(o).exprs) or "cache_hist" in u(o)]
+        if not hist:
+            continue
+        n_cmp += 1
+        for o in ops:
+            if isinstance(o, ast.Constant):
+                continue
+            der = rd.derives(o)
+            through = any(isinstance(c.func, ast.Attribute) and c.func.attr == "format" for c in list(der.calls()) + [c for c in ast.walk(o) if isinstance(c, ast.Call)])
+            # every definition of a plain name must itself be a rounded value
+            if isinstance(o, ast.Name):
+                through = all(d.value is not None and (any(isinstance(c, ast.Call) and isinstance(c.func, ast.Attribute) and c.func.attr == "format" for c in ast.walk(d.value))
+                                                       or (isinstance(d.value, ast.Name) and any(isinstance(c.func, ast.Attribute) and c.func.attr == "format" for c in rd.derives(d.value).calls())))
+                              for d in rd.defs_of(o) if d.kind != "param")
+            if not through:
+                raw.append((n, o))
+    col.floor("best_epoch_comparisons", n_cmp, 1)
+    col.ob("G13", "O11", f"{rel}::{CLS}.get_best_epoch::epochs-ordered-by-the-value-as-stored", not raw,
+           (f"`{u(raw[0][0])[:70]}` orders epochs with `{u(raw[0][1])}`, a metric that has not been through the column's format string: "
+            f"two epochs that are equal as stored (and after a reload) are told apart now, so the 'best' epoch - and the checkpoint files "
+            f"kept for it - changes when the controller is re-created from its history file") if raw else "", rel,
+           raw[0][0].lineno if raw else f.line, sample=dict(comparisons=n_cmp))
 
 
 def _o8(ctx, rel):
